@@ -4,13 +4,13 @@
    the model, restated over observations.  The C09.* clauses are the deadline sentence of C09 on this dimension (a call waiting
    for a permit is still a call); the ADM.* clauses belong to no listed property and are reported as notes by the driver. *)
 EXTENDS Naturals, Sequences, FiniteSets, TraceKit
-Fresh(stim) == [stim |-> stim, now |-> 0, sentAt |-> <<>>, order |-> <<>>, prevRunning |-> {}, prevOk |-> {}, prevCut |-> {}]
-Keys == {"runs", "steps", "waited", "cut_while_waiting", "cut_while_running", "two_connections"}
-Init == InitK(Fresh([limit |-> 0, calls |-> <<>>, steps |-> <<>>]), Keys)
+Fresh(stim) == [stim |-> stim, now |-> 0, sentAt |-> <<>>, startAt |-> <<>>, order |-> <<>>, prevRunning |-> {}, prevOk |-> {}, prevCut |-> {}]
+Keys == {"runs", "steps", "with_server_timeout", "cut_by_server_timeout", "waited", "cut_while_waiting", "cut_while_running", "two_connections"}
+Init == InitK(Fresh([limit |-> 0, srv |-> 0, calls |-> <<>>, steps |-> <<>>]), Keys)
 SetOf(q) == { q[i] : i \in 1..Len(q) }
 Pos(q, x) == CHOOSE i \in 1..Len(q) : q[i] = x
-Reset == ResetK([Fresh(E.stim) EXCEPT !.sentAt = [k \in 1..Len(E.stim.calls) |-> 0 - 1]])
-         /\ Count({"runs"} \cup (IF \E i, j \in 1..Len(E.stim.calls) : E.stim.calls[i].c # E.stim.calls[j].c THEN {"two_connections"} ELSE {}))
+Reset == ResetK([Fresh(E.stim) EXCEPT !.sentAt = [k \in 1..Len(E.stim.calls) |-> 0 - 1], !.startAt = [k \in 1..Len(E.stim.calls) |-> 0 - 1]])
+         /\ Count({"runs"} \cup (IF E.stim.srv > 0 THEN {"with_server_timeout"} ELSE {}) \cup (IF \E i, j \in 1..Len(E.stim.calls) : E.stim.calls[i].c # E.stim.calls[j].c THEN {"two_connections"} ELSE {}))
 Handler == /\ l <= Len(Rec) /\ ~dead /\ E.e \in {"srv_req", "srv_done", "srv_drop"} /\ l' = l + 1 /\ UNCHANGED <<run, dead, bad, s, stats>>
 Obs == /\ Live("obs")
        /\ LET calls == s.stim.calls
@@ -21,6 +21,10 @@ Obs == /\ Live("obs")
               running == SetOf(E.running)  ok == SetOf(E.ok)  cut == SetOf(E.cut)  started == SetOf(E.started)
               Sent == { k \in K : sent1[k] >= 0 }
               Due(k) == calls[k].tmo > 0 /\ now1 - sent1[k] >= calls[k].tmo
+              \* the tick at which each handler was first seen running = its admission
+              start1 == [k \in K |-> IF s.startAt[k] < 0 /\ k \in started THEN now1 ELSE s.startAt[k]]
+              \* Server::timeout (stim.srv ticks, 0 = none) bounds the handler from its admission, not the wait before it
+              SrvDue(k) == s.stim.srv > 0 /\ start1[k] >= 0 /\ now1 - start1[k] >= s.stim.srv
               Conns == { calls[k].c : k \in K }
               On(S, c) == { k \in S : calls[k].c = c }
               Waiting(c) == { k \in On(Sent, c) : k \notin started /\ k \notin ok \cup cut }
@@ -34,11 +38,13 @@ Obs == /\ Live("obs")
                           <<"ADM.OutcomesAreFinal", s.prevOk \subseteq ok /\ s.prevCut \subseteq cut /\ ok \cap cut = {}>>,
                           <<"ADM.OnlyOkOrCut", E.other = <<>> >>,
                           <<"C09.CutOffOnTimeEvenWhileWaiting", \A k \in Sent : Due(k) => k \in ok \cup cut>>,
-                          <<"C09.UnaffectedBeforeDeadline", \A k \in cut : Due(k)>> >>,
-                       [s EXCEPT !.now = now1, !.sentAt = sent1, !.order = order1, !.prevRunning = running, !.prevOk = ok, !.prevCut = cut])
+                          <<"C09.ServerTimeoutBoundsTheHandler", \A k \in Sent : SrvDue(k) => k \in ok \cup cut>>,
+                          <<"C09.UnaffectedBeforeDeadline", \A k \in cut : Due(k) \/ SrvDue(k)>> >>,
+                       [s EXCEPT !.now = now1, !.sentAt = sent1, !.startAt = start1, !.order = order1, !.prevRunning = running, !.prevOk = ok, !.prevCut = cut])
              /\ Count({"steps"} \cup (IF \E c \in Conns : Waiting(c) # {} THEN {"waited"} ELSE {})
                       \cup (IF \E k \in cut \ s.prevCut : k \notin started THEN {"cut_while_waiting"} ELSE {})
-                      \cup (IF \E k \in cut \ s.prevCut : k \in started THEN {"cut_while_running"} ELSE {}))
+                      \cup (IF \E k \in cut \ s.prevCut : k \in started THEN {"cut_while_running"} ELSE {})
+                      \cup (IF \E k \in cut \ s.prevCut : ~Due(k) THEN {"cut_by_server_timeout"} ELSE {}))
 End == EndK(<<>>)
 Known == {"reset", "srv_req", "srv_done", "srv_drop", "obs", "end", "client_connect_err"}
 Next == Reset \/ Handler \/ Obs \/ End \/ UnknownK(Known) \/ DeadSkipK
